@@ -287,10 +287,10 @@ PROPS = {
         "modules": ["PasskeyVerif.Props.C08"],
         "props_files": ["PasskeyVerif/Props/C08.lean"],
         "translators": [tr_flags],
-        "harness": [["gen", "C08"]],
+        "harness": [["gen", "C08"], ["@c15", "gen", "C08dbg"]],
         "trusted": AUTH_TRUSTED,
         "assumptions": ["stored counters are 32-bit values", "the store performs each call atomically and, for the per-credential history, is not shared with a concurrent ceremony (that is C19)"],
-        "level_text": "Kernel-checked for every configuration, store and request: registration reports and stores zero (or none); a successful assertion uses the first credential of the lookup and, if it has counter c, responds with bump(c) after the store accepted exactly that value, where bump(c) = c+1 below 2^32-1 and stays 2^32-1 at the maximum (never smaller, no crash); a credential without a counter reports none (zero on the wire) and is never rewritten; the encoded counter field is the counter. Any history of successful assertions with one credential (any requests and user-validation behaviours) on a store holding it with counter c reports exactly c+1, c+2, ..., c+n (saturating) and ends with the last value stored (C08_history, by induction over the history; C08_counters_step: strictly +1 below the maximum). Tied to the code by sequences of 2-9 assertions interleaved over 1-3 credentials with start values 0, 1, 2^31, 2^32-2, 2^32-1, random, with and without extension requests.",
+        "level_text": "Kernel-checked for every configuration, store and request: registration reports and stores zero (or none); a successful assertion uses the first credential of the lookup and, if it has counter c, responds with bump(c) after the store accepted exactly that value, where bump(c) = c+1 below 2^32-1 and stays 2^32-1 at the maximum (never smaller, no crash); a credential without a counter reports none (zero on the wire) and is never rewritten; the encoded counter field is the counter. Any history of successful assertions with one credential (any requests and user-validation behaviours) on a store holding it with counter c reports exactly c+1, c+2, ..., c+n (saturating) and ends with the last value stored (C08_history, by induction over the history; C08_counters_step: strictly +1 below the maximum). Tied to the code by sequences of 2-9 assertions interleaved over 1-3 credentials with start values 0, 1, 2^31, 2^32-2, 2^32-1, random, with and without extension requests; the boundary corpus runs a second time against an unoptimised build with overflow checks and debug assertions.",
         "level_note": "Trusted: Lean kernel; axioms propext/Classical.choice/Quot.sound; the hand model (compared byte for byte incl. the counter boundary); Spec = the statement's clauses over (store before, observation).",
         "rule": "boundary corpus (start 2^32-3, 2^32-2, 2^32-1 on three stores, three assertions each) then 150 (thorough 1500) histories of 2-9 ceremonies over 1-3 credentials with and without counters, registrations and denied ceremonies in between, with and without PRF requests.",
     },
